@@ -323,6 +323,8 @@ pub struct Cfg {
   pub maxalign: usize,
   pub retries: u8,
   pub magic: u16,
+  /// `Options::with_offset` of a file-backed arena (optional 12th token `offset=N`; 0 otherwise)
+  pub offset: u64,
 }
 
 pub const FREELISTS: [&str; 3] = ["none", "opt", "pess"];
@@ -332,9 +334,13 @@ impl Cfg {
   /// Parses a `cfg` line (keys in the order of PROTOCOL.md); `None` = `bad-op`.
   pub fn parse(line: &str) -> Option<Cfg> {
     let t: Vec<&str> = line.split(' ').collect();
-    if t.len() != 11 || t[0] != "cfg" {
+    if (t.len() != 11 && t.len() != 12) || t[0] != "cfg" {
       return None;
     }
+    let offset: u64 = match t.get(11) {
+      None => 0,
+      Some(x) => x.strip_prefix("offset=")?.parse().ok()?,
+    };
     let val = |i: usize, key: &str| -> Option<&str> { t[i].strip_prefix(key)?.strip_prefix('=') };
     Some(Cfg {
       sync: match val(1, "flavour")? {
@@ -355,6 +361,7 @@ impl Cfg {
       maxalign: val(8, "maxalign")?.parse().ok()?,
       retries: val(9, "retries")?.parse().ok()?,
       magic: val(10, "magic")?.parse().ok()?,
+      offset,
     })
   }
 
@@ -371,7 +378,7 @@ impl Cfg {
       self.maxalign,
       self.retries,
       self.magic
-    )
+    ) + &(if self.offset != 0 { format!(" offset={}", self.offset) } else { String::new() })
   }
 
   /// May panic (`with_maximum_alignment` asserts a power of two): call under `catch_unwind`.
@@ -389,6 +396,7 @@ impl Cfg {
         _ => Freelist::Pessimistic,
       })
       .with_unify(self.unify)
+      .with_offset(if self.backend == 2 { self.offset } else { 0 })
   }
 
   /// `data_offset()` the arena will report for this configuration (the "prefix").
@@ -1658,6 +1666,7 @@ impl<A: Flavour> Case<A> {
         .with_minimum_segment_size(r.minseg)
         .with_maximum_alignment(cfg.maxalign)
         .with_maximum_retries(cfg.retries)
+        .with_offset(cfg.offset)
         .with_read(true)
         .with_write(true);
       if r.create {
